@@ -32,13 +32,28 @@ def norm(lines):
 
 def compare(sc, runs, limit=None):
     runs = [r for r in runs if r.get("sched") is not None]
+    # runs with Unlock as a scheduling point have no counterpart in the model (its scheduling
+    # points are the lock acquisitions): they are judged by the implementation-side oracles only
+    nskip = len(runs)
+    runs = [r for r in runs if not any(l.startswith("opt ") and "yieldunlock" in l.split() for l in r["case_lines"][:4])]
+    nskip -= len(runs)
     if limit:
         runs = runs[:limit]
     # the model is a sequential filter (one case after the other): shard the runs over the
-    # CPUs, contiguous blocks so that the concatenated outputs are in the order of `runs`
+    # CPUs. The cost of a run is dominated by the replay of its prefix and by its length, so
+    # the runs are dealt heaviest first onto the currently lightest shard (a run with a
+    # 9000-operation prefix costs as much as a thousand small ones); `runs` is reordered to the
+    # concatenation of the shards, so that the concatenated outputs are in the order of `runs`.
     shards = min(vlib.NCPU, max(1, len(runs) // 256))
-    size = -(-len(runs) // shards) if runs else 1
-    blocks = [runs[i:i + size] for i in range(0, len(runs), size)] or [[]]
+    def cost(r):
+        return 40 + sum(1 for l in r["case_lines"] if l.startswith("pre ")) + len(r["sched"]) // 2
+    load = [0] * shards
+    blocks = [[] for _ in range(shards)]
+    for r in sorted(runs, key=cost, reverse=True):
+        i = load.index(min(load))
+        blocks[i].append(r)
+        load[i] += cost(r)
+    runs = [r for b in blocks for r in b]
 
     def one(i):
         f = sc.path("tie.%d.cases" % i)
@@ -64,7 +79,7 @@ def compare(sc, runs, limit=None):
                 cur.append(l)
     bad = [p for p in procs if p.returncode != 0]
     res = dict(compared=0, mismatches=0, mismatch=None, ranked_states=0, unranked_states=0, unranked_case=None,
-               stepsnap_runs=0, stepsnap_lines_compared=0)
+               stepsnap_runs=0, stepsnap_lines_compared=0, skipped_unlock_yield=nskip)
     if bad or len(outs) != len(runs):
         res["mismatch"] = dict(detail="cmodel produced %d cases for %d runs (exit %s): %s" % (
             len(outs), len(runs), [p.returncode for p in procs], (bad[0] if bad else procs[0]).stderr[-500:]))
